@@ -167,6 +167,55 @@ PROPS = {
         "level_note": "Trusted: _update/_query as external functions (ghost `sent`), '%'-formatting/join/n3 as "
                       "uninterpreted functions, PyVC/z3.",
     },
+    "C07": {
+        "modules": ["contracts.c07_terms"],
+        "extra": [{"kind": "vt", "name": "term-law-lemmas", "module": "contracts.c07_terms"}],
+        "claim_level": "other",
+        "design_ref": "6.7",
+        "technique": TECH,
+        "clauses_decided": [
+            "Identifier.__eq__/__ne__, Literal.__eq__, Literal.__hash__, Identifier.__lt__/__gt__ are proved equal to "
+            "spec functions (same kind and text; literal: text, datatype, lower-cased language; kind ranking table read "
+            "from the source, string order within a kind)",
+            "lemmas over the spec functions (z3): == reflexive, symmetric, transitive; kinds never equal; literal never "
+            "equals non-literal; == implies equal hash (IRIs/blank nodes and literals, language case-insensitive on both "
+            "sides); < on IRIs/blank nodes/variables is a strict total order consistent with BNode < Variable < URIRef < Literal",
+        ],
+        "clauses_not_decided": [
+            "Literal value-space ordering (Literal.__gt__/__lt__), pickling/copying, from_n3(n3()), n3() read by the "
+            "Turtle and SPARQL parsers: bounded stand-in over a 35-term zoo only",
+        ],
+        "explanation": "The comparison methods are straight-line code and are proved against spec functions; the laws "
+                       "are then z3 lemmas over those spec functions.",
+        "assumptions": A_COMMON,
+        "level_text": "Deductive proof of the equality/hash/kind-order laws for all terms; reconstruction clauses "
+                      "(pickle, n3 round trips) and literal value ordering are bounded, hence 'other'.",
+        "level_note": "Trusted: str hash/lower/^ as uninterpreted functions, kind tags for type(x), PyVC/z3.",
+    },
+    "C09": {
+        "modules": ["contracts.c09_ranges"],
+        "extra": [{"kind": "vt", "name": "well-formedness-dispatch-table", "module": "contracts.c09_ranges"}],
+        "claim_level": "other",
+        "design_ref": "6.9",
+        "technique": TECH,
+        "clauses_decided": [
+            "every _well_formed_* range predicate accepts exactly the XSD value range of its datatype (int, short, byte, "
+            "unsigned*, (non)positive/(non)negative integers; boolean lexical space) - proved, linear integer arithmetic",
+            "the dispatch table _check_well_formed_types attaches the right predicate to each datatype (proved-finite on "
+            "the table read from the source)",
+        ],
+        "clauses_not_decided": [
+            "that int()/float()/Decimal()/isoformat()/the regex date-time parsers implement the XSD lexical mappings over "
+            "whole value spaces (external functions, floating point): bounded corner sets only",
+            "Literal.__new__ control flow (ill_typed wiring, normalisation) - bounded only so far",
+        ],
+        "explanation": "Range predicates are linear integer code and are proved; the converter axiom per datatype is "
+                       "bounded on corner sets (DESIGN 6.9).",
+        "assumptions": A_COMMON,
+        "level_text": "Proof of the value-range predicates and the dispatch table; the Python-value/lexical-form "
+                      "mappings themselves are bounded (corner-case sets), hence 'other'.",
+        "level_note": "Trusted: CPython int semantics; converters not verified.",
+    },
     "C17": {
         "modules": ["contracts.c17_store"],
         "claim_level": "proof",
